@@ -25,7 +25,10 @@ FUNCTIONS = ['uxarray.grid.intersections.fast_constant_lat_intersections',
     "uxarray.subset.grid_accessor.GridSubsetAccessor.bounding_circle@face centers",
     'uxarray.grid.slice._slice_face_indices',
     'uxarray.grid.slice._slice_node_indices',
-    'uxarray.grid.slice._slice_edge_indices']
+    'uxarray.grid.slice._slice_edge_indices',
+    'uxarray.grid.slice._slice_face_indices@source_is_itself_a_subset',
+    'uxarray.grid.grid.Grid.get_ball_tree',
+    'uxarray.grid.grid.Grid.get_kd_tree']
 STANDINS = ["subsets"]
 ASSUMPTIONS = []
 EXPLANATION = ""
